@@ -30,6 +30,19 @@ CHECKS = {
         "back-end says so (Clarabel and SCS); invalid option values must raise.",
    note="objects without any leaf are outside the statement; SolverError is inconclusive for that case",
    tech="runtime monitor of accessor outcomes (exception type / returned value) over generated and fault models"),
+ "C07": dict(cat="exploration", ref="DESIGN 3/C07",
+   text="After every public Function call of random (and, thorough tier, exhaustively enumerated short) call sequences on leaf and "
+        "composite functions, a state-walking hook evaluates the bookkeeping invariants (one value per point, gradient reuse, "
+        "weighted-sum coherence by search over term samples, stationary/fixed points, alias points, recorded samples immutable) "
+        "and contracts on returned objects. 5e5 invariant evaluations per quick run.",
+   note="trusted: pv/canon.py; coefficient equality at 1e-9 relative",
+   tech="invariant-at-a-hook: executable bookkeeping model checked at quiescent points after each call"),
+ "C15": dict(cat="exploration", ref="DESIGN 3/C15",
+   text="Monitor on BlockPartition.get_block (sum-back, repeated request identity, one-block identity) + comparison of the "
+        "partition constraints crossing the wrapper boundary with the reference orthogonality set (both inclusions) + evaluation "
+        "on real coordinate projections of random vectors, over random multi-partition models.",
+   note="trusted: pv/canon.py and an independent bilinear expansion; growth across re-solves is judged under C13",
+   tech="runtime contracts on get_block + reference-set comparison of sent constraints + concrete-projection evaluation"),
 }
 NOT_YET = {}
 
